@@ -189,7 +189,7 @@ def real_spec(draw):
 def run_real(spec):
     from vf.realproc import run_with_watchdog
 
-    obs = run_with_watchdog(lambda: sv.run_server_real(spec), budget_s=90, what='ProcessServlet server')
+    obs = run_with_watchdog(lambda: sv.run_server_real(spec), budget_s=30, what='ProcessServlet server')
     if obs.enter_exc is not None:
         raise Violation('enter_failed', f'{type(obs.enter_exc).__name__}: {obs.enter_exc}', signature=['enter'])
     if obs.exit_exc is not None:
